@@ -24,7 +24,6 @@ import (
 	"github.com/ontio/ontology-crypto/keypair"
 	"github.com/ontio/ontology/common"
 	vconfig "github.com/ontio/ontology/consensus/vbft/config"
-	"github.com/ontio/ontology/core/signature"
 	ccom "github.com/ontio/ontology/smartcontract/service/native/cross_chain/common"
 	"github.com/ontio/ontology/smartcontract/service/native/cross_chain/header_sync"
 	"github.com/ontio/ontology/smartcontract/service/native/utils"
@@ -35,9 +34,12 @@ import (
 
 func init() { hx.Register("C33", Run) }
 
+// hostileEncs: bookkeeper key encodings a forger may put in a header (world.encodeKey).
+var hostileEncs = []string{"uncompressed", "off+2", "off+6", "off+40", "off+1", "nonresidue", "zero", "infinity"}
+
 const (
 	classDup          = "crosschain-header:duplicate-bookkeeper"
-	classUnder        = "crosschain-header:under-two-thirds"
+	classUnder        = "crosschain-header:accepted-without-valid-quorum"
 	classWrongEpoch   = "crosschain-header:wrong-epoch-peer-set"
 	classValidRefused = "crosschain-header:valid-refused"
 )
@@ -79,17 +81,22 @@ func (w *world) governing(chain uint64, height uint32) (*header_sync.ConsensusPe
 	return cp, uint32(best), found
 }
 
-// signersIn lists the members of one stored peer set that have a valid signature on the header
-// hash among hdr.SigData (signature.Verify, peer by peer).
-func signersIn(cp *header_sync.ConsensusPeers, hdr *ccom.Header) (signers []string) {
+// signersIn lists the members of one stored peer set that have, among hdr.SigData, a signature of
+// the header hash that verifies under the member's GENUINE key object (the pool's own key object
+// for pool peers; the library is called directly inside a recover).
+func (w *world) signersIn(cp *header_sync.ConsensusPeers, hdr *ccom.Header) (signers []string) {
 	hash := hdr.Hash()
 	for id := range cp.PeerMap {
-		pk, err := vconfig.Pubkey(id)
-		if err != nil {
+		var pk keypair.PublicKey
+		if m, ok := w.byPeerID[id]; ok && m >= 1 && int(m) <= len(w.pool) {
+			pk = w.pool[m-1].pub
+		} else if k, err := vconfig.Pubkey(id); err == nil {
+			pk = k
+		} else {
 			continue
 		}
 		for _, sg := range hdr.SigData {
-			if signature.Verify(pk, hash[:], sg) == nil {
+			if ok, _ := guardedVerify(pk, hash[:], sg); ok {
 				signers = append(signers, id[:8])
 				break
 			}
@@ -106,7 +113,7 @@ func (w *world) signingPeers(hdr *ccom.Header) (signers []string, total int, ok 
 	if !found {
 		return nil, 0, false
 	}
-	return signersIn(cp, hdr), len(cp.PeerMap), true
+	return w.signersIn(cp, hdr), len(cp.PeerMap), true
 }
 
 // otherEpochSatisfied: some OTHER stored peer set of the chain has two thirds of its members
@@ -117,7 +124,7 @@ func (w *world) otherEpochSatisfied(hdr *ccom.Header) (uint32, bool) {
 		if v == gov {
 			continue
 		}
-		if cp, ok := w.peersAt(hdr.ChainID, v); ok && len(cp.PeerMap) > 0 && 3*len(signersIn(cp, hdr)) >= 2*len(cp.PeerMap) {
+		if cp, ok := w.peersAt(hdr.ChainID, v); ok && len(cp.PeerMap) > 0 && 3*len(w.signersIn(cp, hdr)) >= 2*len(cp.PeerMap) {
 			return v, true
 		}
 	}
@@ -138,6 +145,13 @@ func (w *world) validlySigned(hdr *ccom.Header) bool {
 		if _, in := cp.PeerMap[vconfig.PubkeyID(k)]; !in {
 			return false
 		}
+		genuine := false
+		for _, p := range w.pool {
+			genuine = genuine || sameKey(k, p.pub)
+		}
+		if !genuine {
+			return false
+		}
 	}
 	if 3*n < 2*len(cp.PeerMap) || len(hdr.SigData) < n {
 		return false
@@ -147,7 +161,7 @@ func (w *world) validlySigned(hdr *ccom.Header) bool {
 	for i := 0; i < n; i++ {
 		hit := -1
 		for j, k := range hdr.Bookkeepers {
-			if !used[j] && signature.Verify(k, hash[:], hdr.SigData[i]) == nil {
+			if ok, _ := guardedVerify(k, hash[:], hdr.SigData[i]); !used[j] && ok {
 				hit = j
 				break
 			}
@@ -215,12 +229,19 @@ func (w *world) applyOp(op opSpec) (int, []*built) {
 func (w *world) probe(setup []opSpec, sp hdrSpec, kind string) {
 	c := w.c
 	b := w.build(sp)
-	// (a) VerifyHeader on the decoded header
-	hdr, err := ccom.HeaderFromRawBytes(b.raw)
-	if err != nil {
-		c.Fail("driver:header-codec", "header built by the driver does not decode", sp, err.Error(), nil)
+	if b.decodeErr != nil {
+		// a bookkeeper key encoding the codec refuses: the contract must refuse the header
+		err := w.call(header_sync.SYNC_BLOCK_HEADER, syncBlockArgs(w.operator, [][]byte{b.raw}), false)
+		c.Count("probe-undecodable:" + kind)
+		if err == nil {
+			c.Fail(classUnder, "SyncBlockHeader returned success for a header whose bytes do not decode", replayCase{Setup: setup, Probe: &sp}, "accepted", b.decodeErr.Error())
+		} else if errClass(err) == 8 {
+			c.Fail("crosschain-header:panic", "SyncBlockHeader panicked on an undecodable header", replayCase{Setup: setup, Probe: &sp}, err.Error(), "an error")
+		}
 		return
 	}
+	// (a) VerifyHeader on the decoded header
+	hdr := b.hdr
 	if len(hdr.Bookkeepers) != len(sp.Bks) || len(hdr.SigData) != len(sp.Sigs) {
 		c.Fail("crosschain-header:codec-drops-entries", "Header codec changed the bookkeeper or signature list", replayCase{Setup: setup, Probe: &sp},
 			[]int{len(hdr.Bookkeepers), len(hdr.SigData)}, []int{len(sp.Bks), len(sp.Sigs)})
@@ -341,12 +362,12 @@ func (w *world) genPeerSet() []int {
 }
 
 // genHeader makes one header spec against a (believed) peer set; the kind names the intent.
-func (w *world) genHeader(chain uint64, height uint32, peers []int) (hdrSpec, string) {
+func (w *world) genHeader(chain uint64, height uint32, peers []int) (sp hdrSpec, kind string) {
 	c := w.c
 	kp := keyPeers(peers)
 	total := distinct(peers)
 	need := (2*total + 2) / 3
-	sp := hdrSpec{Chain: chain, Height: height, Salt: c.Rng.Uint64()}
+	sp = hdrSpec{Chain: chain, Height: height, Salt: c.Rng.Uint64()}
 	pick := func(n int) []int {
 		s := w.shuffled(kp)
 		if n > len(s) {
@@ -366,7 +387,16 @@ func (w *world) genHeader(chain uint64, height uint32, peers []int) (hdrSpec, st
 		}
 		return c.Intn(nKeys)
 	}
-	kind := []string{"honest-all", "honest-min", "honest-sig-order", "too-few", "dup-one", "dup-some", "non-peer",
+	defer func() {
+		// hostile encodings of some bookkeeper keys (never in histories: allowHostile)
+		if w.allowHostile && len(sp.Bks) > 0 && c.Intn(5) == 0 {
+			sp.BkEnc = make([]string, len(sp.Bks))
+			for n := 1 + c.Intn(2); n > 0; n-- {
+				sp.BkEnc[c.Intn(len(sp.Bks))] = hostileEncs[c.Intn(len(hostileEncs))]
+			}
+		}
+	}()
+	kind = []string{"honest-all", "honest-min", "honest-sig-order", "too-few", "dup-one", "dup-some", "non-peer",
 		"missing-sig", "bad-sig", "dup-sig", "extra-sigs", "garbage-first", "foreign-sig", "random", "honest-min", "dup-one", "extra-sigs-bad"}[c.Intn(17)]
 	switch kind {
 	case "honest-all":
@@ -528,19 +558,21 @@ func Run(c *hx.Ctx) {
 	}
 	f12(c, pool)
 	boundary(c, pool)
-	nScen := c.N(70, 600)
+	hostile(c, pool)
+	nScen := c.N(45, 600)
 	for i := 0; i < nScen; i++ {
 		scenario(c, pool)
 	}
-	nEpochs := c.N(18, 150)
+	nEpochs := c.N(12, 150)
 	for i := 0; i < nEpochs; i++ {
 		epochs(c, pool, i)
 	}
-	nHist := c.N(60, 500)
+	nHist := c.N(40, 500)
 	for i := 0; i < nHist; i++ {
 		history(c, pool)
 	}
-	nMulti := c.N(300, 3000)
+	multiHostile(c, pool)
+	nMulti := c.N(150, 3000)
 	for i := 0; i < nMulti; i++ {
 		multi(c, pool)
 	}
